@@ -7,7 +7,7 @@
 PROPS = {
     "C01": {
         "level": "exploration",
-        "steps": [("hv", "C01", {}), ("py", "lsx", "run_c01"), ("hv", "wasmapi", {"_scale": 0.5}), ("hv", "cli", {"_scale": 0.5}), ("py", "san", "cachegrind", "thorough_only"), ("py", "san", "asan", "thorough_only")],
+        "steps": [("hv", "C01", {}), ("py", "lsx", "run_c01"), ("hv", "wasmapi", {"_scale": 0.3}), ("hv", "cli", {"_scale": 0.3}), ("py", "san", "cachegrind", "thorough_only"), ("py", "san", "asan", "thorough_only")],
         "rule": "documents from G-corpus prefix closure, clauses, hostile Unicode, mutations, fixtures, long/nesting families and "
                 "grammar-generated files, through all 29 front-ends (x wrappers, x rule configurations x dialects), each run under a "
                 "crash monitor (catch_unwind + process-death observation), a CPU-time hang monitor and (thorough) instruction-count "
